@@ -41,12 +41,16 @@ def run(ctx):
         r.anchor_missing("IoRead::{position, peek}")
         return
 
-    la = common.fields_of_type(lexpr, "parse::read::IoRead", lambda ty: ty == "std::option::Option<u8>")
+    la = common.fields_of_type(lexpr, "parse::read::IoRead", lambda ty: ty == "std::option::Option<u8>" or ty.startswith("std::option::Option<(u8,"))
     if len(la) != 1:
         r.anchor_missing("the Option<u8> lookahead field of IoRead (found %s)" % la)
         return
     LA = la[0]
     accessors = set()
+    # the pending byte may be kept together with the position in front of it: Option<(u8, Position)>
+    la_ty = [f["ty"] for f in lexpr.adts["parse::read::IoRead"]["variants"][0]["fields"] if f["name"] == LA][0]
+    pending = Adt(OPT, 1, [65]) if la_ty == "std::option::Option<u8>" else \
+        Adt(OPT, 1, [sim.Tup([65, Opq("self", (LA, "saved-position"))])])
 
     def mk_hook(order):
         def hook(S, fn, bb, t, args, path):
@@ -105,7 +109,7 @@ def run(ctx):
         r.violation(pos.path, "position-no-lookahead", "IoRead::position without a pending byte returns %s" % sorted(rets, key=repr), pos.loc())
         return
     # position() with a pending byte must come from saved state
-    S = sim.Sim([lexpr], hooks={"call": mk_hook(None), "opaque": opaque_with(Adt(OPT, 1, [65]))})
+    S = sim.Sim([lexpr], hooks={"call": mk_hook(None), "opaque": opaque_with(pending)})
     ps = [p for p in S.run(pos) if p.end == "return"]
     saved = set()
     computed = False
@@ -132,6 +136,10 @@ def run(ctx):
         for e in p.events:
             if e[0] == "store" and e[1] == field:
                 stores.append(fields(e[2]))
+            elif e[0] == "store" and isinstance(e[1], Opq) and e[1].path and e[1].path[-1] == LA and isinstance(e[2], Adt) \
+                    and e[2].variant == 1 and e[2].fields and isinstance(e[2].fields[0], sim.Tup) and len(e[2].fields[0].fields) == 2:
+                # the byte and the position in front of it stored together: Some((byte, position))
+                stores.append(fields(e[2].fields[0].fields[1]))
     if stores and all(s == base for s in stores):
         r.ok("peek() saves (iter.line(), iter.col()) taken before iter.next() into %r" % field, peek)
     else:
